@@ -6,7 +6,7 @@ import props, manifest_text as T
 allp = [json.loads(l)["id"] for l in open("/verif/properties.jsonl")]
 checks = []
 for pid in allp:
-    if pid not in props.PROPS:
+    if pid not in props.PROPS or props.PROPS[pid].get('internal'):
         continue
     t = T.TEXT[pid]
     checks.append({
@@ -35,7 +35,7 @@ m = {
          "serves_properties": [c["property_id"] for c in checks],
          "kind_free_text": "Lean 4 model + theorems (kernel-checked) tied to the Rust code by a differential correspondence harness; Lean property monitors evaluated on implementation traces give replays"}],
     "checks": checks,
-    "not_applicable": [{"property_id": p, "reason": T.NOT_YET.get(p, "check not built yet (work in progress)")} for p in allp if p not in props.PROPS],
+    "not_applicable": [{"property_id": p, "reason": T.NOT_YET.get(p, "check not built yet (work in progress)")} for p in allp if p not in props.PROPS or props.PROPS[p].get('internal')],
     "notes": T.NOTES,
 }
 json.dump(m, open("/verif/MANIFEST.json", "w"), indent=1)
